@@ -85,6 +85,7 @@ type CanonLog struct {
 	Inlined  []string `json:"helpers_inlined,omitempty"`
 	Failed   []string `json:"failed,omitempty"`
 	Steps    int      `json:"reload_steps,omitempty"`
+	Lifted   []string `json:"closures_lifted,omitempty"`
 }
 
 type declInfo struct {
